@@ -184,6 +184,12 @@ where
         leader_id: Option<u32>,
         term: u64,
     ) {
+        #[cfg(feature = "verif-hooks")]
+        crate::verif::emit(crate::verif::VerifEvent::LeaderNotify {
+            node: self.node_id,
+            leader: leader_id,
+            term,
+        });
         if let Some(tx) = &self.leader_change_listener {
             tx.send_if_modified(|current| {
                 let new_info = leader_id.map(|id| LeaderInfo {
@@ -488,7 +494,16 @@ where
                 let _ = self.role.drain_read_buffer();
 
                 debug!("BecomeFollower");
+                #[cfg(feature = "verif-hooks")]
+                let verif_from_role = self.role.as_i32();
                 self.role = self.role.become_follower()?;
+                #[cfg(feature = "verif-hooks")]
+                crate::verif::emit(crate::verif::VerifEvent::RoleChange {
+                    node: self.node_id,
+                    from: verif_from_role,
+                    to: self.role.as_i32(),
+                    term: self.role.current_term(),
+                });
 
                 // Reset vote when stepping down (new term, no vote yet)
                 self.role.state_mut().reset_voted_for()?;
@@ -507,7 +522,16 @@ where
                 let _ = self.role.drain_read_buffer();
 
                 debug!("BecomeCandidate");
+                #[cfg(feature = "verif-hooks")]
+                let verif_from_role = self.role.as_i32();
                 self.role = self.role.become_candidate()?;
+                #[cfg(feature = "verif-hooks")]
+                crate::verif::emit(crate::verif::VerifEvent::RoleChange {
+                    node: self.node_id,
+                    from: verif_from_role,
+                    to: self.role.as_i32(),
+                    term: self.role.current_term(),
+                });
 
                 // No leader during candidate state
                 let current_term = self.role.current_term();
@@ -518,7 +542,16 @@ where
             }
             InternalEvent::BecomeLeader => {
                 debug!("BecomeLeader");
+                #[cfg(feature = "verif-hooks")]
+                let verif_from_role = self.role.as_i32();
                 self.role = self.role.become_leader()?;
+                #[cfg(feature = "verif-hooks")]
+                crate::verif::emit(crate::verif::VerifEvent::RoleChange {
+                    node: self.node_id,
+                    from: verif_from_role,
+                    to: self.role.as_i32(),
+                    term: self.role.current_term(),
+                });
 
                 // Mark vote as committed (candidate → leader transition)
                 let current_term = self.role.current_term();
@@ -560,7 +593,16 @@ where
                 let _ = self.role.drain_read_buffer();
 
                 debug!("BecomeLearner");
+                #[cfg(feature = "verif-hooks")]
+                let verif_from_role = self.role.as_i32();
                 self.role = self.role.become_learner()?;
+                #[cfg(feature = "verif-hooks")]
+                crate::verif::emit(crate::verif::VerifEvent::RoleChange {
+                    node: self.node_id,
+                    from: verif_from_role,
+                    to: self.role.as_i32(),
+                    term: self.role.current_term(),
+                });
 
                 // Learner has no leader initially
                 let current_term = self.role.current_term();
